@@ -216,6 +216,8 @@ class Session:
                 prog["pulses"] = ("." if pm["relative"] else "") + pm["mod"]
             lay = progast.Layout(Tape(H(self.plan["run_seed"], "layout", ti)), e.get("noise", 0.0))
             txt = progast.render(prog, lay)
+            if e.get("crlf"):
+                txt = txt.replace("\n", "\r\n")  # the same program saved with Windows line ends
         if e.get("pulses"):
             self.ensure_module(e["pulses"])
         self._texts[ti] = txt
@@ -1016,6 +1018,11 @@ def plan_c16(run_seed):
             if not cfg["anon"] and t.chance(0.25):
                 kind = t.weighted([("good", 4), ("missing", 1), ("noattr", 1), ("raises", 2)])
                 e["pulses"] = {"mod": "%s_%d" % (modbase, i), "relative": t.chance(0.6), "kind": kind, "j": t.randrange(2)}
+        if t.chance(0.1):
+            # Windows line ends (whether the library takes them or rejects the first \r, every
+            # position it reports must be a position in the text as given)
+            e["crlf"] = True
+            e["exec"] = False
         if t.chance(0.18) and e["prog"]["lets"]:
             # unusual but lexically legal: an integer let that is 0 or negative (it may be a
             # slice step, a size, an index, a count)
@@ -1258,6 +1265,14 @@ def check_type(S, j, op, o, text, allowed_extra=()):
                 ch = text[at]
                 if ch in "$@~#`\\\0é\"" or (at == 0 and ch in "]}>|:,*"):
                     exact = (text.count("\n", 0, at) + 1, at - text.rfind("\n", 0, at))
+            first_cr = text.find("\r", 0, at)
+            if first_cr >= 0 and exact is not None and len(fd.get("ch", "")) == 1:
+                # a carriage return stands before the fault: the library may stop there
+                # (it is no token either) - or, if it takes \r\n as a line end, at the fault
+                cr_pos = (text.count("\n", 0, first_cr) + 1, first_cr - text.rfind("\n", 0, first_cr))
+                if (line, col) == cr_pos:
+                    S.probe("carriage_return_reported_as_first_offender")
+                    return
             if exact is not None and len(fd.get("ch", "")) == 1:
                 # the parser may already object to the token that the character cut short, so
                 # anything from the start of that run of non-blank characters up to the
@@ -1273,6 +1288,8 @@ def check_type(S, j, op, o, text, allowed_extra=()):
                 else:
                     S.probe("exact_position_checked")
             first_line = text.count("\n", 0, min(at, len(text))) + 1
+            if first_cr >= 0:
+                first_line = min(first_line, text.count("\n", 0, first_cr) + 1)
             if line < first_line:
                 S.viol.add("C16", "parse_error_position", "before_the_fault", o["where"], "error reported on line %d, the text is intact up to line %d" % (line, first_line), op=j)
             else:
@@ -1397,6 +1414,8 @@ def materialise_c16(plan):
                     prog = dict(prog)
                     prog["pulses"] = ("." if e["pulses"]["relative"] else "") + e["pulses"]["mod"]
                 rendered[ti] = progast.render(prog, progast.Layout(Tape(H(plan["run_seed"], "layout", ti)), e.get("noise", 0.0)))
+                if e.get("crlf"):
+                    rendered[ti] = rendered[ti].replace("\n", "\r\n")
         return rendered[ti]
 
     for op in plan["ops"]:
